@@ -443,6 +443,20 @@ def oracle_junit(rec, tree):
             if status != want_status:
                 probs.append(("junit:status", f"testcase {wn!r} is {status}, attempt was {want_status}"))
                 continue
+            # the failure element states what failed: the attempt's last event that is neither a log
+            # nor the passing after hook - a hook's message is its panic payload, a step's its error
+            fl = c.find("failure")
+            # (XML attribute-value normalization turns line breaks and tabs into spaces)
+            att_norm = lambda x: re.sub(r"[\n\r\t]", " ", x or "")
+            if fl is not None and not has_cdata_end:
+                rel = [e for e in a["entries"] if e["t"] != "log" and not (e["t"] == "hook" and e["which"] == "After" and e["status"] == "passed")]
+                last = rel[-1] if rel else None
+                if last is not None and last["t"] == "hook" and last["status"] == "failed":
+                    if fl.get("type") != "Hook Panicked" or att_norm(fl.get("message")) != att_norm(last["msg"]):
+                        probs.append(("junit:failure-message", f"testcase {wn!r}: failure type={fl.get('type')!r} message={fl.get('message')!r}, the failed {last['which']} hook's message is {last['msg']!r}"))
+                elif last is not None and last["t"] == "step" and last["status"] in ("failed", "ambiguous", "undefined"):
+                    if fl.get("type") != "Step Panicked" or att_norm(fl.get("message")) != att_norm(last["err"]):
+                        probs.append(("junit:failure-message", f"testcase {wn!r}: failure type={fl.get('type')!r} message={fl.get('message')!r}, the failed step's error is {last['err']!r}"))
             so = c.find("system-out")
             if so is None and c.find("failure") is not None:
                 so = c.find("failure")  # junit-report puts the captured output into the failure element's body
